@@ -342,6 +342,9 @@ func resultUnknown(a *Analyzer, sig *types.Signature, st *State, desc string) Te
 
 func (a *Analyzer) external(fr *frame, site ssa.Instruction, name string, sig *types.Signature, st *State, args []Term, fnv Term) []retState {
 	one := func(v Term) []retState { return []retState{{st, v}} }
+	if a.OnExternal != nil {
+		a.OnExternal(fr.fn, site, name, st, args)
+	}
 	argSlice := func(i int) *Slice {
 		if i < len(args) {
 			if s, ok := args[i].(*Slice); ok {
